@@ -13,6 +13,9 @@ def run(chk, tier):
     plan = [("vdims", "c++17")]
     if tier == "thorough":
         plan += [("vheaders", "c++17"), ("vlayout", "c++17"), ("vdims", "c++20"), ("vdims", "c++11"), ("test_schema", "c++17")]
+    # the configuration without size checks compiles different (#else) constructors of entries / iterators / ranges:
+    # same geometry rows, `end` and assertion clauses left out
+    spec_group.check_iterators(chk, lib_for("vdims", "c++17", asserts=False), limit=None if tier == "thorough" else 8)
     for name, std in plan:
         lib = lib_for(name, std)
         spec_group.check_groups(chk, lib)
